@@ -63,8 +63,27 @@ def mktree(rnd, base, with_dropins=True, broken=0.08):
     return roots, files
 
 
+def canon_members(text):
+    """the members of a pod register in the order in which the containers are converted, which follows the order of discovery
+    (and the unstable priority sort): runs of `Wants=X` / `Before=X` pairs are sorted"""
+    lines = text.split('\n')
+    out, i = [], 0
+    while i < len(lines):
+        run = []
+        while i + 1 < len(lines) and lines[i].startswith('Wants=') and lines[i + 1] == 'Before=' + lines[i][6:]:
+            run.append((lines[i], lines[i + 1]))
+            i += 2
+        if run:
+            for a, b in sorted(run):
+                out += [a, b]
+        else:
+            out.append(lines[i])
+            i += 1
+    return '\n'.join(out)
+
+
 def canon_text(t):
-    return '\n'.join(canon.canon_exec(l) if l.startswith('Exec') else l for l in t.split('\n'))
+    return canon_members('\n'.join(canon.canon_exec(l) if l.startswith('Exec') else l for l in t.split('\n')))
 
 
 def run_tree(roots, files, dry_run=True):
